@@ -164,6 +164,10 @@ def run_case(case):
 
         async def request_response(self, payload):
             calls.append(('request_response', bytes(payload.data or b'')))
+            if case.get('resp_future'):
+                f = asyncio.get_event_loop().create_future()      # the v4 adapter accepts a future of an observable
+                f.set_result(source(case['n'], case['fail_at'], b'r'))
+                return f
             return source(case['n'], case['fail_at'], b'r')
 
         async def request_stream(self, payload):
@@ -409,6 +413,8 @@ def gen_cases(ctx, n):
                               dispose_after=None, up_n=up, h_limit=rng.choice([1, 2, MAXN])))
         for cnt, fa in ((0, None), (1, None), (1, 0), (3, None)):
             cases.append(dict(ver=ver, kind='response', n=cnt, limit=1, fail_at=fa, dispose_after=None))
+            if ver == 'rx4':
+                cases.append(dict(ver=ver, kind='response', n=cnt, limit=1, fail_at=fa, dispose_after=None, resp_future=True))
         cases.append(dict(ver=ver, kind='fnf', n=0, limit=1, fail_at=None, dispose_after=None))
         cases.append(dict(ver=ver, kind='push', n=0, limit=1, fail_at=None, dispose_after=None))
     while len(cases) < n:
@@ -429,6 +435,7 @@ def gen_cases(ctx, n):
                               up_n=hl * rng.randint(1, 3) + rng.choice([0, 0, 1]), h_limit=hl))
     for i, c in enumerate(cases):
         c.setdefault('factory', False)
+        c.setdefault('resp_future', False)
         c.setdefault('up_n', None)
         c.setdefault('h_limit', None)
         c['lenreq'] = rng.random() < 0.6
